@@ -73,23 +73,25 @@ def run(ctx):
             for why in sorted(v["why"]):
                 if why == "time":
                     # timing is noisy: re-measure the same schedule three times, all must exceed the bound
-                    ck = (r["doc"], r["last"])
+                    ck = (r["doc"], r["mode"], r["phase"], r["last"])
                     if ck not in confirmed:
                         if len(confirmed) >= 4:
                             ev.add("time_outliers_not_confirmed", 1)
                             continue
                         crec = os.path.join(d, "confirm.ndjson")
                         vlib.sh([binp, "c10", "--out", crec, "--repo", vlib.REPO, "--tier", ctx.tier, "--seed", str(ctx.seed),
-                                 "--confirm", "%s|%d" % (r["doc"], r["j"])], timeout=900)
+                                 "--confirm", "%s|%s|%d|%d" % (r["doc"], r["mode"], r["j"], r["delay"])], timeout=900)
                         cr = vlib.read_ndjson(crec)
                         confirmed[ck] = len(cr) >= 3 and all(x["fired"] and x["aftercpu"] > max(100000, x["fullcpu"] // 4) for x in cr)
                     if not confirmed[ck]:
                         ev.add("time_outliers_not_confirmed", 1)
                         continue
                 if why in ("ops", "time"):
-                    key = "late|cancelled in %s|continues in %s" % (r["phase"] or "?", r["last"] or "?")
+                    key = "late|cancelled in %s|continues in %s" % (r["phase"] or "?", r["last"] or "no-input")
                     if r["mode"] == "timer":
-                        key = "late|timer|continues in %s" % (r["last"] or "?")
+                        key = "late|timer|continues in %s" % (r["last"] or "no-input")
+                    elif r["mode"] == "gap":
+                        key = "late|computing after the last input of %s|continues in %s" % (r["class"], r["last"] or "no-input")
                 elif why == "precancelled":
                     key = "precancelled|%s|%s" % (r["mode"], r["kind"])
                 else:
@@ -126,13 +128,14 @@ def run(ctx):
         phases = sorted({r["phase"] for r in fired if r["phase"]})
         ev.cov(evaluations=len(rows), distinct_nontrivial=len(mid),
                rule="one evaluation = one read of one document under one cancellation schedule (pre-cancelled, expired deadline, cancel after "
-                    "the j-th Read/Seek, timer at a seeded delay, ReadFileWithContext pre-cancelled); non-trivial = distinct (document, j) whose "
+                    "the j-th Read/Seek, cancel 10/30/60 percent into the longest stretches of pure computation, timer at a seeded delay, ReadFileWithContext pre-cancelled); non-trivial = distinct (document, j) whose "
                     "cancellation fell while the read was still in progress; documents with at most %s operations get every j, larger ones the "
                     "phase boundaries and a seeded sample" % ("450" if ctx.quick else "2500"),
                traces_validated_against_impl=len(rows), documents=len(summ["docs"]), phases_cancelled=phases,
                distinct_signatures=len(sig), design_classes=len(cls), timer_runs=summ["timer"],
                max_ops_after_cancel=max([r["after"] for r in fired] or [0]),
-               max_cpu_us_after_cancel=max([r["aftercpu"] for r in fired if r["mode"] == "timer"] or [0]),
+               max_cpu_us_after_cancel=max([r["aftercpu"] for r in fired if r["mode"] in ("timer", "gap", "det")] or [0]),
+               gap_runs=summ.get("gap", 0),
                exhaustive=False)
         ev.assume("OpsBound(size) = 32 + 2*ceil(size/4096) input operations after the cancellation (CancelOps.tla; calibrated with head-room on the tree "
                   "with the repair-path cancellation defects fixed: max 49 at 1 MB, 19 on small inputs)",
